@@ -603,7 +603,9 @@ async fn check_pred(ds: &Dataset, st: &State, fam: &str, index: &str, history: &
         } else if istable
             && !["zonemap", "bloomfilter"].contains(&ikind.as_str())
             && update_then_optimize(history)
-            && only_with.iter().chain(only_without.iter()).all(|u| [0i64, 2, 3, 5, 6].contains(u))
+            // (a negation may add the NULL rows on top: the other known defect)
+            && only_with.iter().chain(only_without.iter()).all(|u| updated_uids(history).contains(u) || (neg && null_uids.contains(u)))
+            && only_with.iter().chain(only_without.iter()).any(|u| updated_uids(history).contains(u))
         {
             // an update keeps the row id on a stable-row-id table; optimize_indices merges the new delta
             // without retiring the old entries of those ids: the index answers with the old values
@@ -701,6 +703,26 @@ pub(crate) fn merge_history_keys(viol: &mut [Violation]) {
             }
         }
     }
+}
+
+/// uids rewritten by the update steps of a history (see `build_state`)
+fn updated_uids(h: &[HOp]) -> Vec<i64> {
+    let mut n = 0;
+    let mut v = vec![];
+    for op in h {
+        match op {
+            HOp::UpdateNull => {
+                v.extend([3i64, 0]);
+                n += 1;
+            }
+            HOp::UpdateVal => {
+                v.extend(if n % 2 == 0 { [2i64, 5] } else { [5i64, 6] });
+                n += 1;
+            }
+            _ => {}
+        }
+    }
+    v
 }
 
 fn update_then_optimize(h: &[HOp]) -> bool {
